@@ -61,8 +61,12 @@ func (p *players) Len() int {
 
 // Range loops through the player list.
 func (p *players) Range(fn func(p Player) bool) {
+	// Snapshot under the lock, call fn outside of it (fn may call back into the list).
 	p.mu.RLock()
-	list := p.list
+	list := make([]*connectedPlayer, 0, len(p.list))
+	for _, player := range p.list {
+		list = append(list, player)
+	}
 	p.mu.RUnlock()
 	for _, player := range list {
 		if !fn(player) {
